@@ -24,7 +24,7 @@ use std::{
     fmt,
     ops::{Deref, DerefMut},
 };
-use unicode_width::UnicodeWidthStr;
+use unicode_width::{UnicodeWidthChar, UnicodeWidthStr};
 
 mod cell;
 mod contacts;
@@ -526,14 +526,16 @@ impl CellBuffer {
             no_escaped_text = raw.to_string();
         } else {
             for (start, end) in char_locs.iter() {
-                let escaped = input_chars[*start + 1..*end].iter().fold(
-                    String::new(),
-                    |mut acc, c| {
-                        acc.push(*c);
-                        acc
-                    },
-                );
-                let escaped_unicode_width = escaped.width();
+                // the filler of a double-width character is not part of the text,
+                // a character occupies as many columns as it does in `StringBuffer`
+                let escaped = input_chars[*start + 1..*end]
+                    .iter()
+                    .filter(|c| **c != '\0')
+                    .collect::<String>();
+                let escaped_unicode_width: usize = escaped
+                    .chars()
+                    .map(|c| c.width().unwrap_or(1).max(1))
+                    .sum();
                 let cell = Cell::new(*start as i32, line as i32);
                 escaped_text.push((cell, escaped));
                 no_escaped_text += &input_chars[index..*start].iter().fold(
